@@ -124,6 +124,35 @@ fn lambert_w0(x: f64) -> f64 {
     w
 }
 
+/// Exact ordering of an Integer and a Float (no precision loss beyond 2^53).
+fn compare_integer_float(i: i64, f: f64) -> std::cmp::Ordering {
+    use std::cmp::Ordering;
+    if f.is_nan() {
+        return (i as f64).total_cmp(&f);
+    }
+    if f >= 9223372036854775808.0 {
+        Ordering::Less
+    } else if f < -9223372036854775808.0 {
+        Ordering::Greater
+    } else {
+        let truncated = f.trunc();
+        match i.cmp(&(truncated as i64)) {
+            Ordering::Equal => 0.0_f64.total_cmp(&(f - truncated)),
+            ordering => ordering,
+        }
+    }
+}
+
+/// Total order on numbers: Integers are compared as integers, Floats by the IEEE total order.
+fn compare(left: &Number, right: &Number) -> std::cmp::Ordering {
+    match (left, right) {
+        (Number::Integer(a), Number::Integer(b)) => a.cmp(b),
+        (Number::Float(a), Number::Float(b)) => a.total_cmp(b),
+        (Number::Integer(a), Number::Float(b)) => compare_integer_float(*a, *b),
+        (Number::Float(a), Number::Integer(b)) => compare_integer_float(*b, *a).reverse(),
+    }
+}
+
 pub fn eval(expr: Node) -> Result<Number, Box<dyn error::Error>> {
     #[cfg(feature = "verif_hooks")]
     crate::verif_hooks::tick();
@@ -531,15 +560,7 @@ pub fn eval(expr: Node) -> Result<Number, Box<dyn error::Error>> {
                     let r = eval(arg)?;
                     match result {
                         Some(l) => {
-                            let lf64 = match l.clone() {
-                                Number::Float(f) => f,
-                                Number::Integer(i) => i as f64,
-                            };
-                            let rf64 = match r.clone() {
-                                Number::Float(f) => f,
-                                Number::Integer(i) => i as f64,
-                            };
-                            if lf64 < rf64 {
+                            if compare(&l, &r) == std::cmp::Ordering::Less {
                                 result = Some(l);
                             } else {
                                 result = Some(r);
@@ -565,15 +586,7 @@ pub fn eval(expr: Node) -> Result<Number, Box<dyn error::Error>> {
                     let r = eval(arg)?;
                     match result {
                         Some(l) => {
-                            let lf64 = match l.clone() {
-                                Number::Float(f) => f,
-                                Number::Integer(i) => i as f64,
-                            };
-                            let rf64 = match r.clone() {
-                                Number::Float(f) => f,
-                                Number::Integer(i) => i as f64,
-                            };
-                            if lf64 > rf64 {
+                            if compare(&l, &r) == std::cmp::Ordering::Greater {
                                 result = Some(l);
                             } else {
                                 result = Some(r);
@@ -610,17 +623,7 @@ pub fn eval(expr: Node) -> Result<Number, Box<dyn error::Error>> {
             for arg in <Vec<Node> as Clone>::clone(&args).into_iter() {
                 results.push(eval(arg)?);
             }
-            results.sort_by(|a, b| {
-                let a = match a {
-                    Number::Integer(x) => (*x) as f64,
-                    Number::Float(x) => *x,
-                };
-                let b = match b {
-                    Number::Integer(x) => (*x) as f64,
-                    Number::Float(x) => *x,
-                };
-                a.total_cmp(&b)
-            });
+            results.sort_by(compare);
             let len = results.len();
             if len % 2 == 0 {
                 let a = results[len >> 1].clone();
